@@ -17,7 +17,7 @@ use std::cell::RefCell;
 use std::io::{BufRead, BufReader, Write};
 use std::rc::Rc;
 
-const OPS: [&str; 11] = [
+const OPS: [&str; 12] = [
     "lzma_decompress",
     "lzma2_decompress",
     "xz_decompress",
@@ -29,6 +29,7 @@ const OPS: [&str; 11] = [
     "lzma_compress (no size field)",
     "lzma2_compress",
     "xz_compress",
+    "Stream (write + flush after every piece, finish)",
 ];
 const FAULTS: [&str; 12] = [
     "sink write k fails",
@@ -53,6 +54,8 @@ struct Job {
     props: Props,
     out_len: u64,
     desc: String,
+    /// the correct output, when it is known independently of lzma-rs (decoders)
+    expect: Option<Vec<u8>>,
 }
 
 #[derive(Clone, Copy, Default)]
@@ -129,6 +132,24 @@ fn exec(job: &Job, f: &Fault) -> Res {
                 }
                 s.finish().map(|_| ()).map_err(|e| format!("finish: {}", e))
             }
+            11 => {
+                // small pieces, flush() after every one: whatever flush hands over early must not
+                // be handed over again later
+                let mut s = Stream::new_with_options(&Options::default(), w.clone());
+                let mut buf = [0u8; 300];
+                loop {
+                    let n = match reader.read(&mut buf) {
+                        Ok(n) => n,
+                        Err(e) => return Err(format!("source: {}", e)),
+                    };
+                    if n == 0 {
+                        break;
+                    }
+                    s.write_all(&buf[..n]).map_err(|e| format!("write: {}", e))?;
+                    s.flush().map_err(|e| format!("flush: {}", e))?;
+                }
+                s.finish().map(|_| ()).map_err(|e| format!("finish: {}", e))
+            }
             6 | 7 | 8 => {
                 let us = match job.op {
                     6 => lzma_rs::compress::UnpackedSize::WriteToHeader(None),
@@ -161,7 +182,7 @@ fn exec(job: &Job, f: &Fault) -> Res {
 
 fn make_job(rng: &mut Rng, op: usize) -> Option<Job> {
     match op {
-        0 | 3 | 5 => {
+        0 | 3 | 5 | 11 => {
             let props = if op == 3 || rng.chance(1, 2) { Props::new(rng.below(4) as u32, rng.below(3) as u32, rng.below(4) as u32) } else { Props::new(3, 0, 2) };
             let mut it = Interp::new();
             let mut pg = ProgGen::new();
@@ -178,7 +199,7 @@ fn make_job(rng: &mut Rng, op: usize) -> Option<Job> {
             let (payload, _t, hist) = crate::refmodel::lzma::encode_program(&prog, props).ok()?;
             let mut input = if op == 3 { vec![] } else { sut::lzma_header(props.byte(), 4096, Some(if marker { None } else { Some(hist.len() as u64) })) };
             input.extend_from_slice(&payload);
-            Some(Job { op, input, props, out_len: hist.len() as u64, desc: format!("{} bytes in, {} bytes out, marker {}", payload.len(), hist.len(), marker) })
+            Some(Job { op, input, props, out_len: hist.len() as u64, desc: format!("{} bytes in, {} bytes out, marker {}", payload.len(), hist.len(), marker), expect: Some(hist) })
         }
         1 | 4 => {
             let n = rng.range(1, 6) as usize;
@@ -186,7 +207,7 @@ fn make_job(rng: &mut Rng, op: usize) -> Option<Job> {
             p.w = [2, 2, 6, 2, 2, 3];
             let chunks = gen_chunks(rng, &p);
             let w = lzma2::write(&chunks).ok()?;
-            Some(Job { op, input: w.bytes, props: Props::new(0, 0, 0), out_len: w.output.len() as u64, desc: chunks.iter().map(|c| c.short()).collect::<Vec<_>>().join(" ") })
+            Some(Job { op, input: w.bytes, props: Props::new(0, 0, 0), out_len: w.output.len() as u64, desc: chunks.iter().map(|c| c.short()).collect::<Vec<_>>().join(" "), expect: Some(w.output) })
         }
         2 => {
             let (spec, desc) = gen_xz(rng, &XzGenParams::standard(4));
@@ -194,7 +215,7 @@ fn make_job(rng: &mut Rng, op: usize) -> Option<Job> {
             if f.len() > 6000 {
                 return None;
             }
-            Some(Job { op, input: f, props: Props::new(0, 0, 0), out_len: spec.plain().len() as u64, desc })
+            Some(Job { op, input: f, props: Props::new(0, 0, 0), out_len: spec.plain().len() as u64, desc, expect: Some(spec.plain()) })
         }
         _ => {
             // encoders: the input is the plaintext
@@ -207,7 +228,7 @@ fn make_job(rng: &mut Rng, op: usize) -> Option<Job> {
                 }
             };
             let data = if rng.chance(1, 2) { rng.bytes(n) } else { structured_data(rng, n) };
-            Some(Job { op, input: data, props: Props::new(0, 0, 0), out_len: 0, desc: format!("{} plaintext bytes", n) })
+            Some(Job { op, input: data, props: Props::new(0, 0, 0), out_len: 0, desc: format!("{} plaintext bytes", n), expect: None })
         }
     }
 }
@@ -227,11 +248,22 @@ fn fam_jobs(ctx: &CaseCtx, cov: &mut Cov) -> CaseOut {
         out.harness_error(format!("fault-free run of {} failed: {} [{}]", OPS[op], base.verdict.short(), job.desc));
         return out;
     }
+    if let Some(e) = &job.expect {
+        if base.sink != *e {
+            out.violate(
+                format!("C12/{}/ok-but-output-wrong-without-any-fault", OPS[op]),
+                format!("{} succeeded on a well-behaved sink, but the sink holds {}: {} [{}]", OPS[op], base.sink.len(), describe_mismatch(e, &base.sink), job.desc),
+                J::obj().set("input_hex", J::s(crate::util::hex_trunc(&job.input, 4096))).set("op", J::s(OPS[op])),
+            );
+            return out;
+        }
+        cov.name("fault_free_output_checked_against_reference", 1);
+    }
     let good = base.sink.clone();
     cov.inc("op", op as u32);
     cov.max("sink_write_calls", base.writes);
     cov.max("source_calls", base.src_calls);
-    let is_decoder_with_flush = matches!(op, 0 | 1 | 3 | 4 | 5);
+    let is_decoder_with_flush = matches!(op, 0 | 1 | 3 | 4 | 5 | 11);
     let data = |what: &str| {
         J::obj()
             .set("input_hex", J::s(crate::util::hex_trunc(&job.input, 4096)))
@@ -442,7 +474,7 @@ pub fn monitor(tier: Tier) -> Monitor {
     Monitor {
         id: "C12",
         level: "fault_enumeration",
-        rule: "per job (one of 11 operations: 3 one-shot decoders, 2 raw decoders, Stream fed from the source, 5 encoder configurations; inputs sized so that the window is flushed several times) a fault-free run counts the sink and source calls, then: every sink write k fails (all k up to 400, thorough 5000), flush fails, every source call k fails (all k up to 300, thorough 3000; sampled beyond), Interrupted once at every 7th call, underlying reads failing behind BufReader(1/7/64), sinks accepting 1 byte / random short counts per write, source and sink failures with other error kinds (UnexpectedEof, WouldBlock, InvalidData, WriteZero, TimedOut, BrokenPipe), and two-event faults (a short-writing sink whose k-th write then fails); verdict rules: injected fault => Err (not Ok, not panic) and the sink is a prefix of the fault-free output; Ok => sink equals the fault-free output; LZMA/LZMA2 decoders leave nothing unflushed; evaluations = faulted executions; distinct by hash of (input, operation, fault)",
+        rule: "per job (one of 12 operations: 3 one-shot decoders, 2 raw decoders, Stream fed from the source without and with flush() after every piece, 5 encoder configurations; the fault-free output of every decoder is first compared with the reference; inputs sized so that the window is flushed several times) a fault-free run counts the sink and source calls, then: every sink write k fails (all k up to 400, thorough 5000), flush fails, every source call k fails (all k up to 300, thorough 3000; sampled beyond), Interrupted once at every 7th call, underlying reads failing behind BufReader(1/7/64), sinks accepting 1 byte / random short counts per write, source and sink failures with other error kinds (UnexpectedEof, WouldBlock, InvalidData, WriteZero, TimedOut, BrokenPipe), and two-event faults (a short-writing sink whose k-th write then fails); verdict rules: injected fault => Err (not Ok, not panic) and the sink is a prefix of the fault-free output; Ok => sink equals the fault-free output; LZMA/LZMA2 decoders leave nothing unflushed; evaluations = faulted executions; distinct by hash of (input, operation, fault)",
         assumptions: vec![
             "oracle = the fault-free run of the same call".into(),
             "ErrorKind::Interrupted may be retried (Ok with the right output) or reported (Err); only ErrorKind::Other must surface".into(),
